@@ -184,12 +184,15 @@ def run_arrays(item, res):
         finally:
             sk.close_all()
         # ---- per-CPU map: read()
-        for npos, non, _ in pcs:
+        for npos, non, _ in [p + (sp,) for p in [q[:2] for q in pcs]
+                             for sp in range(3)]:
             res.count("evaluations")
             sk = simkernel.SimKernel(n_possible=npos, n_online=non)
+            sk.possible_spelling = _
             mon = Monitor(sk, res)
             cj = dict(kind="percpu", layout=[list(p) for p in layout],
-                      n_possible=npos, n_online=non)
+                      n_possible=npos, n_online=non, spelling=_,
+                      possible=sk.possible_text())
             try:
                 with sk.installed():
                     try:
